@@ -216,6 +216,11 @@ func (r *transport) handleUnrecognizedMethod(
 	req *http.Request,
 	urlKey string,
 ) (*http.Response, error) {
+	if internal.ParseCCRequestDirectives(req.Header).OnlyIfCached() {
+		// RFC 9111 §5.2.1.7: never contact the origin; nothing is stored for
+		// such requests (other methods, Range), so there is nothing to return.
+		return make504Response(req)
+	}
 	if !internal.IsUnsafeMethod(req.Method) {
 		resp, err := r.upstream.RoundTrip(req)
 		if err != nil {
